@@ -21,4 +21,15 @@ theorem zernike_orthonormal_area_40 (j j' : Nat) (hj : 1 ≤ j) (hj' : 1 ≤ j')
     (1 / Real.pi) * ∫ q in unitDisk, zReal j (polarCoord q).1 (polarCoord q).2 * zReal j' (polarCoord q).1 (polarCoord q).2
       = if j = j' then 1 else 0 := zernike_orthonormal_area_of 40 gramUpTo_40 j j' hj hj' hn hn'
 
+/-- **|R_n^m| ≤ 1 on [−1, 1] for every valid (n, m) with n ≤ 40** — every mode the implementation can evaluate -/
+theorem radial_abs_le_one_40 (n m : Nat) (hn : n ≤ 40) (hm : m ≤ n) (h : (n - m) % 2 = 0) (x : ℝ) (h0 : -1 ≤ x) (h1 : x ≤ 1) :
+    |radialEval n m x| ≤ 1 :=
+  radialCheb_sound n m h (radialCheb_of_all 40 allCheb_40 n m hn hm h) x h0 h1
+
+/-- … hence `|Z_j| ≤ 1` without normalisation on the unit disk for all 861 modes -/
+theorem raw_mode_abs_le_one_40 (j : Nat) (hj : 1 ≤ j) (hn : nollN j ≤ 40) (ρ θ : ℝ) (h0 : 0 ≤ ρ) (h1 : ρ ≤ 1) :
+    |zernAt (fun k => Real.sqrt k) Real.cos Real.sin j false ρ θ true| ≤ 1 := by
+  obtain ⟨v1, v2, -⟩ := noll_valid j hj
+  exact le_trans (raw_mode_le_radial j ρ θ) (radial_abs_le_one_40 _ _ hn v1 v2 ρ (by linarith) h1)
+
 end Lentil.C11
